@@ -259,6 +259,7 @@ def finding_c08_d6(line, go):
 _CLIENT_BAD = {
     "C07": ("data-frame-", "connection-window-exceeded", "stream-", ),
     "C18": ("data-frame-",),
+    "C14": ("conn-recv-window-",),
     "C02": ("block-", "headers-", "even-stream-id", "end-stream-on-headers", "dataflags"),
     "C11": ("retryable-after-headers",),
     "C12": ("second-delivery", "submit-while-write-held"),
@@ -287,7 +288,7 @@ def client_oracle(pid):
     return orc
 
 
-CLIENT_ORACLES = {pid: client_oracle(pid) for pid in ("C02", "C07", "C11", "C12", "C18", "C19")}
+CLIENT_ORACLES = {pid: client_oracle(pid) for pid in ("C02", "C07", "C11", "C12", "C14", "C18", "C19")}
 
 FINDING_ORACLES = dict(SERVER_ORACLES)
 FINDING_ORACLES["c08-d1"] = finding_c08_d1
